@@ -9,7 +9,7 @@
    oracle on the implementation's output (bin/check C13). *)
 From Coq Require Import List ZArith Lia Bool Arith NArith.
 From Coq.Strings Require Import Byte.
-From Muduo Require Import Gen_Consts Gen_Conn Conn_Model Conn_Proofs Conn_Trace Conn_Race Conn_GenTie.
+From Muduo Require Import Gen_Consts Gen_Conn Conn_Model Conn_Proofs Conn_Trace Conn_Race Conn_GenTie C13_Settings.
 Import ListNotations.
 
 (* ========================================================================================== *)
@@ -204,7 +204,11 @@ Theorem C13_no_repeat_until_below :
 Proof. exact P13_no_repeat_until_below. Qed.
 Print Assumptions C13_no_repeat_until_below.
 
-(* the mark and the installed callbacks never change *)
+(* no operation of the model changes the mark or the installed callbacks.  NOTE (REVIEW_C item 8):
+   this holds because Conn_Model.op contains no setter - it states the USER CONTRACT under which the
+   theorems that speak of "the" mark (C13_callbacks_trace, C13_no_repeat_until_below) are meant:
+   setHighWaterMarkCallback / setWriteCompleteCallback are called before connectEstablished and not
+   again.  The setters as operations, and what survives a change of settings: section "settings" below. *)
 Theorem C13_settings_constant : forall c o c' e, step c o = Ok (c', e) ->
   hwm c' = hwm c /\ has_wc c' = has_wc c /\ has_hwm c' = has_hwm c.
 Proof. exact step_const. Qed.
@@ -230,6 +234,67 @@ Theorem C13_callbacks_xtrace : forall mark wc hw ops x e,
   cb_events e ++ cbs (pending (xbase x)) = flat_map cb_due (xtrace (xinit mark wc hw) ops).
 Proof. exact xcallbacks_trace. Qed.
 Print Assumptions C13_callbacks_xtrace.
+
+(* ========================================================================================== *)
+(* Settings: the two setters as operations (C13_Settings.v, on top of the shared model)          *)
+(* ========================================================================================== *)
+(* TcpConnection.h:95-99: setWriteCompleteCallback(cb) { writeCompleteCallback_ = cb; },
+   setHighWaterMarkCallback(cb, mark) { highWaterMarkCallback_ = cb; highWaterMark_ = mark; } - plain
+   assignments, allowed at any time on the loop thread (unsynchronised: C08 contract `setup`; "a
+   functor / callback runs on the loop thread" is Properties_C04.C04_on_loop_thread).  [sstep] extends
+   the machine by them; a setter changes the settings and NOTHING else (backlog, wire, queued
+   notifications, state, interest), emits nothing. *)
+Theorem C13_sstep_def : forall c so,
+  sstep c so = match so with
+               | SBase o => step c o
+               | SetHWM b m => Ok (set_hwm c b m, [])
+               | SetWC b => Ok (set_wc c b, [])
+               end.
+Proof. exact sstep_unfold. Qed.
+Print Assumptions C13_sstep_def.
+
+Theorem C13_setters_touch_settings_only : forall c,
+  (forall b m, sstep c (SetHWM b m) = Ok (set_hwm c b m, []) /\
+     hwm (set_hwm c b m) = m /\ has_hwm (set_hwm c b m) = b /\ has_wc (set_hwm c b m) = has_wc c /\
+     outb (set_hwm c b m) = outb c /\ wire (set_hwm c b m) = wire c /\ pending (set_hwm c b m) = pending c /\
+     st (set_hwm c b m) = st c /\ writing (set_hwm c b m) = writing c) /\
+  (forall b, sstep c (SetWC b) = Ok (set_wc c b, []) /\
+     has_wc (set_wc c b) = b /\ hwm (set_wc c b) = hwm c /\ has_hwm (set_wc c b) = has_hwm c /\
+     outb (set_wc c b) = outb c /\ wire (set_wc c b) = wire c /\ pending (set_wc c b) = pending c /\
+     st (set_wc c b) = st c /\ writing (set_wc c b) = writing c).
+Proof. exact setters_touch_settings_only. Qed.
+Print Assumptions C13_setters_touch_settings_only.
+
+(* in the extended machine the settings change at setter operations ONLY; a history without setters
+   is a history of the base machine, so every theorem above applies to each setter-free stretch with
+   the settings current in it.  The per-step theorems (C13_wc_iff_emptied, C13_hwm_iff_crossing,
+   C13_on_loop_thread, C13_only_sends_and_drains_queue_callbacks) hold for EVERY state and therefore
+   after any number of setter calls, for the mark / callbacks installed at that step. *)
+Theorem C13_settings_change_only_by_setters : forall sops c c' e,
+  srun c sops = Ok (c', e) -> forallb is_base sops = true ->
+  hwm c' = hwm c /\ has_wc c' = has_wc c /\ has_hwm c' = has_hwm c.
+Proof. exact srun_settings. Qed.
+Print Assumptions C13_settings_change_only_by_setters.
+
+Theorem C13_setter_free_history_is_base : forall ops c, srun c (map SBase ops) = run c ops.
+Proof. exact srun_base. Qed.
+Print Assumptions C13_setter_free_history_is_base.
+
+(* what does NOT survive: "not again until the backlog has fallen below the mark" is about one mark.
+   Mark 2, a refused send of 3 bytes (high-water with 3), the user raises the mark to 5, a refused send
+   of 2 more (high-water again, with 5) - the backlog never fell below 2; it crossed the new mark. *)
+Theorem C13_no_repeat_with_setter_refuted :
+  exists c e, srun (init 2%N true true) ex_remark = Ok (c, e) /\
+    pending c = [FHighWater 3; FHighWater 5] /\ length (outb c) = 5 /\
+    (forall n c1 e1, (2 <= n <= 4)%nat -> srun (init 2%N true true) (firstn n ex_remark) = Ok (c1, e1) ->
+       (2 <= N.of_nat (length (outb c1)))%N).
+Proof. exact no_repeat_with_setter_refuted. Qed.
+Print Assumptions C13_no_repeat_with_setter_refuted.
+
+Example ex_remark_def :
+  ex_remark = [ SBase Establish; SBase (Send [x61; x62; x63] (Accept 0)); SetHWM true 5%N;
+                SBase (Send [x64; x65] (Accept 0)) ].
+Proof. reflexivity. Qed.
 
 (* ========================================================================================== *)
 (* Source: the tests of the current TcpConnection.cc                                            *)
